@@ -2615,10 +2615,28 @@ impl Broker {
                 num_services: self.statistics.num_services,
                 num_channels: self.statistics.num_channels,
                 num_bus_listeners: self.statistics.num_bus_listeners,
+                #[cfg(feature = "introspection")]
+                num_introspections: Some(self.statistics.num_introspections),
+                #[cfg(not(feature = "introspection"))]
+                num_introspections: None,
             }),
 
             #[cfg(not(feature = "statistics"))]
             gauges: None,
+
+            #[cfg(feature = "introspection")]
+            introspection: Some(self.introspection.verif_snapshot()),
+            #[cfg(not(feature = "introspection"))]
+            introspection: None,
+
+            #[cfg(feature = "introspection")]
+            query_introspection: self
+                .query_introspection
+                .verif_iter()
+                .map(|(serial, type_id)| (serial, *type_id))
+                .collect(),
+            #[cfg(not(feature = "introspection"))]
+            query_introspection: Default::default(),
 
             has_work_left: state.has_work_left(),
             shutdown_now: state.shutdown_now(),
